@@ -57,6 +57,13 @@ def Ff (fnOk : Bool) (self : String) : Expr → Bool
   | .def_ x e => okName x && Ff fnOk self e
   | .set_ x e => okName x && Ff fnOk self e
   | .cond arms d => FfArms fnOk self arms && Ff fnOk self d
+  | .and_ es => FfList fnOk self es
+  | .or_ es => FfList fnOk self es
+  | .newScope es => !es.isEmpty && FfList fnOk self es
+  | .let_ seq bs body =>
+    (seq || decide ((bs.map (·.1)).Nodup)) && !body.isEmpty && FfBinds fnOk self bs && FfList fnOk self body
+  | .arr es => FfList fnOk self es
+  | .for_ _ init test incr body => Ff fnOk self init && Ff fnOk self test && Ff fnOk self incr && FfList fnOk self body
   | .call (.sym h) args => (h != self) && (h != "") && okHead h && FaList args
   | .fn ps rest body =>
     fnOk && rest.isNone && decide ps.Nodup && ps.all okParam && !body.isEmpty && FfList true "" body
@@ -70,6 +77,9 @@ def FfList (fnOk : Bool) (self : String) : List Expr → Bool
 def FfArms (fnOk : Bool) (self : String) : List (Expr × Expr) → Bool
   | [] => true
   | (p, b) :: r => Ff fnOk self p && Ff fnOk self b && FfArms fnOk self r
+def FfBinds (fnOk : Bool) (self : String) : List (String × Expr) → Bool
+  | [] => true
+  | (x, e) :: r => okName x && Ff fnOk self e && FfBinds fnOk self r
 def FaList : List Expr → Bool
   | [] => true
   | e :: es => Ff false "" e && FaList es
@@ -97,14 +107,17 @@ structure KeepFns (g₁ g₂ : GS) : Prop where
   len : g₁.fns.length ≤ g₂.fns.length
   fns : ∀ t, t < g₁.fns.length → g₂.fns.getD t {} = g₁.fns.getD t {}
   live : g₂.live = g₁.live
-  loops : g₂.loops = g₁.loops
+  loopsLen : g₁.loops.length ≤ g₂.loops.length
+  loopsGet : ∀ id, id < g₁.loops.length → g₂.loops.getD id {} = g₁.loops.getD id {}
   loopstack : g₂.loopstack = g₁.loopstack
 
-theorem KeepFns.refl (g : GS) : KeepFns g g := ⟨Nat.le_refl _, fun _ _ => rfl, rfl, rfl, rfl⟩
+theorem KeepFns.refl (g : GS) : KeepFns g g := ⟨Nat.le_refl _, fun _ _ => rfl, rfl, Nat.le_refl _, fun _ _ => rfl, rfl⟩
 
 theorem KeepFns.trans {a b c : GS} (h₁ : KeepFns a b) (h₂ : KeepFns b c) : KeepFns a c :=
   ⟨Nat.le_trans h₁.len h₂.len, fun t ht => (h₂.fns t (Nat.lt_of_lt_of_le ht h₁.len)).trans (h₁.fns t ht),
-   h₂.live.trans h₁.live, h₂.loops.trans h₁.loops, h₂.loopstack.trans h₁.loopstack⟩
+   h₂.live.trans h₁.live, Nat.le_trans h₁.loopsLen h₂.loopsLen,
+   fun id hid => (h₂.loopsGet id (Nat.lt_of_lt_of_le hid h₁.loopsLen)).trans (h₁.loopsGet id hid),
+   h₂.loopstack.trans h₁.loopstack⟩
 
 /-- the code was compiled when its text was loaded (generator state `gs` before, `gs'` after, the
 live stack then being the global scope alone), and the templates made on the way are in the
@@ -1402,5 +1415,90 @@ theorem GoodFn.create {m : Nat → Nat} {s : St} {rs : Ref.St} {env : Nat} (h : 
     exact h2.seg_congr (takeToBoundary_idem _ _)
   · rw [hnew1]; exact hcd
   · rw [hfo1 t htlt]; exact htclo
+
+/-! ## Opening a scope (`let`, `letseq`, `newScope`) -/
+
+theorem isFnScope_pushScope (s : St) (i : Nat) : isFnScope s.pushScope i = if i < s.scopes.length then isFnScope s i else false := by
+  unfold isFnScope
+  rw [scopeOf_pushScope]
+  split <;> rfl
+
+/-- a scope that is no function scope pushed on the segment searched before: the suffixes stay suffixes -/
+theorem FnChainF.push {s : St} {frames : List Ref.Frame} {seg : List (Option Nat)} (x : Option Nat)
+    (hx : Scope.isFnElem (isFnScope s) x = false) : ∀ {k f}, FnChainF s frames seg k f → FnChainF s frames (x :: seg) k f := by
+  have htt : Scope.takeToBoundary (isFnScope s) (x :: seg) = x :: Scope.takeToBoundary (isFnScope s) seg := by
+    simp only [Scope.takeToBoundary, hx, Bool.false_eq_true, if_false]
+  intro k f hc
+  induction hc with
+  | root seg f hlt hp hs =>
+    obtain ⟨t, ht⟩ := hs
+    exact FnChainF.root _ f hlt hp ⟨x :: t, by rw [htt, ht]; rfl⟩
+  | step seg k f p hlt hp hpf hs _ ih =>
+    obtain ⟨t, ht⟩ := hs
+    have htt' : Scope.takeToBoundary (isFnScope s) (x :: seg) = x :: Scope.takeToBoundary (isFnScope s) seg := by
+      simp only [Scope.takeToBoundary, hx, Bool.false_eq_true, if_false]
+    exact FnChainF.step _ k f p hlt hp hpf ⟨x :: t, by rw [htt', ht]; rfl⟩ (ih htt')
+  | clos seg e f p k' hlt hp hpf hch hrest _ => exact FnChainF.clos _ e f p k' hlt hp hpf hch hrest
+
+/-- `addScope` against `newFrame`: a fresh scope on top, a fresh frame under the current one -/
+theorem RelF.pushScope {m s rs env} (h : RelF m s rs env) :
+    RelF m s.pushScope (Ref.newFrame rs env).2 rs.frames.length := by
+  obtain ⟨k, hc, hfc⟩ := h.ctx
+  obtain ⟨fr0, hf0, hp0, hfl0⟩ := h.root0
+  have hlt := hc.lt
+  have hlen := h.len
+  have hpos : 0 < rs.frames.length := lt_of_getElem?_some hf0
+  have hflo : ∀ i, i < s.scopes.length → isFnScope s.pushScope i = isFnScope s i := fun i hi => by
+    rw [isFnScope_pushScope, if_pos hi]
+  have hfln : isFnScope s.pushScope s.scopes.length = false := by
+    rw [isFnScope_pushScope, if_neg (Nat.lt_irrefl _)]
+  have hext : ∀ (i : Nat) (fr : Ref.Frame), rs.frames[i]? = some fr →
+      ∃ fr' : Ref.Frame, (Ref.newFrame rs env).2.frames[i]? = some fr' ∧ fr'.parent = fr.parent := fun i fr hf =>
+    ⟨fr, by show (rs.frames ++ [_])[i]? = _; rw [List.getElem?_append_left (lt_of_getElem?_some hf)]; exact hf, rfl⟩
+  have hk : FnsKeep s s.pushScope := FnsKeep.of_fns_eq rfl
+  have hrext : RExt rs (Ref.newFrame rs env).2 := ⟨hext, fun i c hc' => hc'⟩
+  have hgood : ∀ j, GoodFn m s rs j → GoodFn m s.pushScope (Ref.newFrame rs env).2 j := fun j hj =>
+    hj.mono hk (by show s.scopes.length ≤ (s.scopes ++ [_]).length; simp) hflo hrext rfl
+  obtain ⟨lrest, hlrest⟩ := hc.head
+  refine ⟨by show (s.scopes ++ [_]).length = (rs.frames ++ [_]).length; simp [hlen], ?_,
+    ⟨fr0, by show (rs.frames ++ [_])[0]? = _; rw [List.getElem?_append_left hpos]; exact hf0, hp0,
+      by rw [hflo 0 (by rw [hlen]; exact hpos)]; exact hfl0⟩,
+    by show ParOk (rs.frames ++ [({ vars := [], parent := some env } : Ref.Frame)]); exact h.par.push [] env hlt,
+    by show (some s.scopes.length :: s.linear).getLast? = _; rw [getLast?_cons_ne _ (by rw [hlrest]; simp)]; exact h.bottom,
+    ⟨k, ?_, ?_⟩, ?_, h.heap, h.trace, h.globals.newFrame env (fun e => by rw [e] at hpos; cases hpos), ?_,
+    HeapIn.mono h.hok hgood⟩
+  · intro i x
+    rw [scopeOf_pushScope]
+    show ((rs.frames ++ [_]).getD i {}).vars.lookup x = _
+    by_cases hi : i < s.scopes.length
+    · rw [if_pos hi, List.getD_eq_getElem?_getD, List.getElem?_append_left (by rw [← hlen]; exact hi)]
+      have := h.vars i x
+      rw [List.getD_eq_getElem?_getD] at this
+      exact this
+    · rw [if_neg hi]
+      by_cases hi' : i = rs.frames.length
+      · subst hi'; simp [List.getD_eq_getElem?_getD]
+      · rw [List.getD_eq_getElem?_getD, List.getElem?_eq_none (by simp; omega)]; rfl
+  · show ChainF (isFnScope s.pushScope) (rs.frames ++ [_]) k rs.frames.length (some s.scopes.length :: s.linear)
+    rw [hlen]
+    refine ChainF.cons k rs.frames.length env { parent := some env } s.linear (by simp) rfl hlt
+      (by rw [← hlen]; exact hfln) (hc.congr hext (fun i hi => hflo i (by rw [hlen]; omega)))
+  · have h2 : FnChainF s.pushScope (rs.frames ++ [({ parent := some env } : Ref.Frame)]) s.linear k s.curfunc :=
+      hfc.transfer (s := s) (s' := s.pushScope) s.scopes.length hflo hext hk
+        (fun e he => by rw [hlen]; exact Nat.lt_trans (hc.k_lt e he) hlt)
+        (takeToBoundary_chain hc (fun i hi => hflo i (by rw [hlen]; omega)))
+    exact h2.push (some s.scopes.length) hfln
+  · intro i hi
+    rw [isFnScope_pushScope] at hi
+    split at hi
+    · rename_i hlt'
+      obtain ⟨t, h1, h2⟩ := h.fscopes i hi
+      exact ⟨t, by rw [scopeOf_pushScope, if_pos hlt']; exact h1, h2⟩
+    · cases hi
+  · intro i x v hv
+    rw [scopeOf_pushScope] at hv
+    split at hv
+    · exact ValIn.mono (h.vok i x v hv) hgood
+    · cases hv
 
 end ZygoVerif.Sim
